@@ -942,9 +942,18 @@ def compare_rendering(res, case, idx, he, rspec, want, got):
 def run_level_direct(env, case, res):
     res.evaluations += 1
     sp = case["spelling"]
-    want = reflog.level(sp)
+    if isinstance(sp, int):
+        # a level given as a number (a default computed by the application,
+        # logging.DEBUG ...): the same range, the same answer
+        want = reflog.level(str(sp))
+        arg = sp
+        sp = str(sp)
+        res.count("levels_given_as_int")
+    else:
+        want = reflog.level(sp)
+        arg = sp
     try:
-        got = ("ok", env.datatypes.logging_level(sp))
+        got = ("ok", env.datatypes.logging_level(arg))
     except ValueError as exc:
         got = ("reject", exc_brief(exc))
     except Exception as exc:  # noqa
@@ -1142,6 +1151,98 @@ def run_samepath_case(env, case, res):
         mon.forget_all()
         gc.collect()
         shutil.rmtree(casedir, ignore_errors=True)
+
+
+def run_reentry_case(env, case, res):
+    """While the factory of one logger section builds its handlers, the
+    formatter class of one of them calls the factory of another logger
+    section.  Both loggers end up with exactly their own handlers, one per
+    section and in order."""
+    import zcverif_dt.fmt as zfmt
+    res.evaluations += 1
+    mon = env.mon
+    casedir = env.newdir()
+    text = render_text(case, casedir)
+    try:
+        with logmon.Sandbox(env.loghandler):
+            mon.clear()
+            try:
+                zfmt.HookFormatter.HOOK[0] = None
+                cfg, _ = env.loadConfigFile(env.schema, io.StringIO(text))
+            except Exception as exc:  # noqa
+                res.violate("refused-but-must-accept", case, "accepted",
+                            exc_brief(exc), detail=text, vsig="reentry-load")
+                return
+            fa, fb = cfg.loggers[0], cfg.loggers[1]
+            inner = []
+
+            def hook():
+                inner.append(fb())
+            zfmt.HookFormatter.HOOK[0] = hook
+            try:
+                la = fa()
+                lb = fb()
+            except Exception as exc:  # noqa
+                res.violate("factory-raised", case, "two loggers",
+                            exc_brief(exc), vsig="reentry-raise")
+                return
+            finally:
+                zfmt.HookFormatter.HOOK[0] = None
+            res.sig("reentry|%d|%d" % (len(case["loggers"][0]["handlers"]),
+                                       len(inner)))
+            for lg, spec in ((la, case["loggers"][0]),
+                             (lb, case["loggers"][1])):
+                want = [real_path(h["path"], casedir)
+                        for h in spec["handlers"]]
+                got = []
+                for h in lg.handlers:
+                    st = getattr(h, "stream", None)
+                    got.append(getattr(h, "baseFilename", None) or
+                               {id(sys.stdout): "STDOUT",
+                                id(sys.stderr): "STDERR"}.get(id(st), "?"))
+                if len(got) != len(want) or any(
+                        w not in ("STDOUT", "STDERR") and g != w
+                        for g, w in zip(got, want)):
+                    res.violate("handlers-differ-from-sections", case,
+                                want, got,
+                                detail="logger %s after a factory call "
+                                "nested in another factory call"
+                                % spec["name"],
+                                vsig="reentry|%s" % (len(got) - len(want)))
+                    return
+            if inner and inner[0] is not lb:
+                res.violate("second-call-other-logger", case, "same logger",
+                            "another object", vsig="reentry-same")
+                return
+            env.loghandler.closeFiles()
+            res.count("judged")
+            res.count("reentry_checked")
+    finally:
+        zfmt.HookFormatter.HOOK[0] = None
+        mon.forget_all()
+        gc.collect()
+        shutil.rmtree(casedir, ignore_errors=True)
+
+
+def reentry_cases():
+    n = 0
+    fmt = {"style": "classic", "format": "%(levelname)s %(message)s"}
+    for na in (1, 2, 3, 4):
+        for pos in range(na):
+            for nb in (1, 2):
+                n += 1
+                ha = []
+                for j in range(na):
+                    h = dict(fmt, path="FILE:a%d.log" % j)
+                    if j == pos:
+                        h["formatter"] = "zcverif_dt.fmt.HookFormatter"
+                    ha.append(h)
+                hb = [dict(fmt, path="FILE:b%d.log" % j) for j in range(nb)]
+                yield {"kind": "reentry", "loggers": [
+                    {"type": "logger", "name": "zcvr%d.a" % n,
+                     "handlers": ha},
+                    {"type": "logger", "name": "zcvr%d.b" % n,
+                     "handlers": hb}]}
 
 
 def samepath_cases():
@@ -1577,6 +1678,9 @@ def gen_levels(caseno):
                         "handlers": [std_handler(level="17")]}]
             yield {"kind": "config", "family": "levels", "loggers": lgs}
         yield {"kind": "level-direct", "spelling": sp}
+    for n in (0, 1, 5, 10, 15, 20, 25, 30, 40, 50, 51, 52, 100, -1, -2,
+              10 ** 30, -10 ** 30):
+        yield {"kind": "level-direct", "spelling": n}
 
 
 ROTATIONS = [
@@ -2119,6 +2223,8 @@ def run_case(env, case, res):
         run_latedir_case(env, case, res)
     elif kind == "samepath":
         run_samepath_case(env, case, res)
+    elif kind == "reentry":
+        run_reentry_case(env, case, res)
     else:
         raise ValueError("unknown case kind %r" % kind)
 
@@ -2193,6 +2299,10 @@ def _run_shard(ctx):
             if ctx.mine(i):
                 run_case(env, case, res)
         for case in samepath_cases():
+            i += 1
+            if ctx.mine(i):
+                run_case(env, case, res)
+        for case in reentry_cases():
             i += 1
             if ctx.mine(i):
                 run_case(env, case, res)
